@@ -1,5 +1,5 @@
 (* C03 — generated types follow the documented field/arity mapping. *)
-From PegV Require Import Utf8 State Syntax Fields FieldsFacts GetFieldsFacts Literals Model Spec ShapeFacts Arity Compile Extracted.
+From PegV Require Import Utf8 State Syntax Fields FieldsFacts GetFieldsFacts TypesFacts Literals Model Spec ShapeFacts Arity Compile Extracted.
 
 Theorem C03_facts :
   fcfg_sound Extracted.fcfg = true /\
@@ -26,12 +26,15 @@ Print Assumptions C03_lattice.
 (* Soundness of the mapping, for every grammar, expression and input: on the
    successful path of the PEG semantics, every field-match event belongs to a
    declared field; a field declared plain (One) is matched exactly once, a field
-   declared Option at most once (Vec: any number of times). *)
+   declared Option at most once (Vec: any number of times), and the rule type of
+   the event is one of the types declared for the field (a multi-type field's
+   generated enum has a variant for it). *)
 Theorem C03_arity_sound :
   forall (shk : shooks) (g : grammar) (n F : nat) skip e cs o evs cs' o' l own,
     get_fields Extracted.fcfg F g e = GFOk own ->
     sv_expr (srun Extracted.fcfg shk g true n) skip e cs o = SOk evs cs' o' l ->
-    (forall ev, In ev evs -> has_fd (ev_field ev) own = true) /\
+    (forall ev, In ev evs -> has_fd (ev_field ev) own = true /\
+                               has_type (ev_typ ev) (types_of (ev_field ev) own) = true) /\
     (forall f a, arity_of f own = Some a ->
        match a with
        | One => length (mine f evs) = 1
@@ -40,8 +43,8 @@ Theorem C03_arity_sound :
        end).
 Proof.
   intros shk g n F skip e cs o evs cs' o' l own G E.
-  destruct (proj1 (arity_sound Extracted.fcfg (proj1 C03_facts) shk g true n) _ _ _ _ _ _ _ _ _ _ G E) as [N C].
-  split; [exact N|]. intros f a Ha. specialize (C f a Ha). destruct a; exact C.
+  destruct (proj1 (arity_sound Extracted.fcfg (proj1 C03_facts) shk g true n) _ _ _ _ _ _ _ _ _ _ G E) as [N [T C]].
+  split; [intros ev Hin; split; [apply N|apply T]; exact Hin|]. intros f a Ha. specialize (C f a Ha). destruct a; exact C.
 Qed.
 Print Assumptions C03_arity_sound.
 
